@@ -1,17 +1,33 @@
-"""GenServer: the reserved dunder list and is_private_attribute of Pyro5/server.py (C02).
+"""GenServer: facts about the exposure gate of Pyro5/server.py that the C02 theorems are checked against.
 
-`_private_dunder_methods` becomes `private_dunder_methods : list text`; `is_private_attribute`
-is translated statement by statement by a mini-translator for boolean string functions into a
-Gallina function over Model/StrFun.v.  Anything outside the recognised fragment fails closed.
+Every fact has an `ast` reader that is tolerant of restructuring (helper functions are followed, renamed locals,
+early returns, message texts and logging are ignored) and, where the fact is a VALUE or can be observed by calling the
+function of the tree under test, a second reader that evaluates it (gen.tree_module); info["mode"] records which reader
+produced each fact.  A fact that neither reader can establish fails closed (GenError).
 
-Recognised fragment (one parameter x):
-  body   ::= ( `if` cond `:` `return` bool )*  `return` (bool | cond)      (docstring allowed first)
-  cond   ::= x `in` NAME | x `not in` NAME | x.startswith(str) | x.endswith(str)
+  private_dunder_methods        the reserved list (ast: literal collection; fallback: the evaluated module attribute)
+  is_private_attribute          ast: mini-translator for boolean string functions (below), following calls into
+                                one-parameter helper functions of the module.  If the translated formula is equivalent to the
+                                canonical one (truth table over its atoms) the canonical text is emitted, so equivalent
+                                restructurings do not disturb the proofs; if it is NOT equivalent the translation is emitted
+                                verbatim (the obligation C02_private_exact then breaks).  fallback: the function of the tree is
+                                probed on ~900 names against the canonical predicate.
+  metadata_cache_keyed_by_class, metadata_cache_stored_after_scan
+                                ast: cache_key tuple / position of the store relative to the scan loop; fallback: behavioural
+                                probe of _get_exposed_members (two same-named classes; a class attribute that raises during the scan)
+  attr_requests_index_arguments every call of the property helpers passes a FIXED number of positional arguments and nothing
+                                else (no *args, no **kwargs, no keywords), wherever in the module the call sits
+
+Translator fragment (one parameter x):
+  body   ::= ( `if` cond `:` `return` (bool|cond) )*  `return` (bool | cond)      (docstring allowed first)
+  cond   ::= x `in` NAME | x `not in` NAME | x.startswith(str) | x.endswith(str) | helper(x)
            | len(x) (>|>=|<|<=|==|!=) int | `not` cond | cond `and` cond | cond `or` cond | True | False
   NAME   ::= module-level frozenset/set/list/tuple literal of str constants
 """
-import ast
-from tools.gen.gen import generator, parse, find_func, module_assign, need, GenError, HEADER, clist, cN, ctext, cbool, ast_sha
+import ast, itertools
+from tools.gen.gen import generator, parse, find_func, module_assign, need, GenError, HEADER, clist, cN, ctext, cbool, ast_sha, tree_module
+
+RESERVED = "_private_dunder_methods"
 
 
 def str_collection(node, what):
@@ -27,9 +43,11 @@ def str_collection(node, what):
     return out
 
 
+# ---------------------------------------------------------------- boolean string functions -> expression trees
+# ("const", b) | ("atom", key) | ("not", e) | ("and", [e..]) | ("or", [e..]) | ("ite", c, a, b)
 class Translator:
-    def __init__(self, mod, func):
-        self.mod, self.func = mod, func
+    def __init__(self, mod, func, depth=0):
+        self.mod, self.func, self.depth = mod, func, depth
         args = func.args
         need(len(args.args) == 1 and not args.vararg and not args.kwarg and not args.kwonlyargs and not args.defaults
              and not getattr(args, "posonlyargs", []), "%s does not take exactly one plain parameter" % func.name)
@@ -40,18 +58,15 @@ class Translator:
     def is_x(self, node):
         return isinstance(node, ast.Name) and node.id == self.x
 
-    def lit(self, node):
-        need(isinstance(node, ast.Constant) and isinstance(node.value, str), "string method argument is not a str literal")
-        return ctext(node.value)
-
     def cond(self, node):
         if isinstance(node, ast.Constant) and isinstance(node.value, bool):
-            return cbool(node.value)
+            return ("const", node.value)
         if isinstance(node, ast.UnaryOp) and isinstance(node.op, ast.Not):
-            return "(negb %s)" % self.cond(node.operand)
+            return ("not", self.cond(node.operand))
         if isinstance(node, ast.BoolOp):
-            op = " && " if isinstance(node.op, ast.And) else " || "
-            return "(" + op.join(self.cond(v) for v in node.values) + ")"
+            return ("and" if isinstance(node.op, ast.And) else "or", [self.cond(v) for v in node.values])
+        if isinstance(node, ast.IfExp):
+            return ("ite", self.cond(node.test), self.cond(node.body), self.cond(node.orelse))
         if isinstance(node, ast.Compare):
             need(len(node.ops) == 1 and len(node.comparators) == 1, "chained comparison")
             op, left, right = node.ops[0], node.left, node.comparators[0]
@@ -60,135 +75,324 @@ class Translator:
                 name = right.id
                 if name not in self.consts:
                     self.consts[name] = str_collection(module_assign(self.mod, name), name)
-                t = "(t_mem %s %s)" % (self.x, coq_ident(name))
-                return t if isinstance(op, ast.In) else "(negb %s)" % t
+                t = ("atom", ("mem", name))
+                return t if isinstance(op, ast.In) else ("not", t)
             if isinstance(left, ast.Call) and isinstance(left.func, ast.Name) and left.func.id == "len":
                 need(len(left.args) == 1 and self.is_x(left.args[0]) and not left.keywords, "len() of something else")
                 need(isinstance(right, ast.Constant) and isinstance(right.value, int) and not isinstance(right.value, bool)
                      and right.value >= 0, "len(...) compared with a non-literal")
-                n, L = cN(right.value), "(t_len %s)" % self.x
-                table = {ast.Gt: "(N.ltb %s %s)" % (n, L), ast.GtE: "(N.leb %s %s)" % (n, L),
-                         ast.Lt: "(N.ltb %s %s)" % (L, n), ast.LtE: "(N.leb %s %s)" % (L, n),
-                         ast.Eq: "(N.eqb %s %s)" % (L, n), ast.NotEq: "(negb (N.eqb %s %s))" % (L, n)}
-                need(type(op) in table, "unsupported comparison operator on len()")
-                return table[type(op)]
+                n = right.value
+                gt = lambda k: ("atom", ("lengt", k))          # len(x) > k
+                if isinstance(op, ast.Gt):
+                    return gt(n)
+                if isinstance(op, ast.GtE):
+                    return gt(n - 1) if n >= 1 else ("const", True)
+                if isinstance(op, ast.Lt):
+                    return ("not", gt(n - 1)) if n >= 1 else ("const", False)
+                if isinstance(op, ast.LtE):
+                    return ("not", gt(n))
+                if isinstance(op, ast.Eq):
+                    return ("atom", ("leneq", n))
+                if isinstance(op, ast.NotEq):
+                    return ("not", ("atom", ("leneq", n)))
+                raise GenError("unsupported comparison operator on len()")
             raise GenError("unsupported comparison in %s" % self.func.name)
         if isinstance(node, ast.Call) and isinstance(node.func, ast.Attribute) and self.is_x(node.func.value):
-            need(node.func.attr in ("startswith", "endswith") and len(node.args) == 1 and not node.keywords,
+            need(node.func.attr in ("startswith", "endswith") and len(node.args) == 1 and not node.keywords
+                 and isinstance(node.args[0], ast.Constant) and isinstance(node.args[0].value, str),
                  "unsupported string method .%s(...)" % node.func.attr)
-            return "(t_%s %s %s)" % (node.func.attr, self.x, self.lit(node.args[0]))
+            return ("atom", ("sw" if node.func.attr == "startswith" else "ew", node.args[0].value))
+        if isinstance(node, ast.Call) and isinstance(node.func, ast.Name) and len(node.args) == 1 and not node.keywords \
+                and self.is_x(node.args[0]):
+            # a helper predicate of the same module applied to the same name: follow it
+            need(self.depth < 2, "helper functions nested too deeply in %s" % self.func.name)
+            sub = Translator(self.mod, find_func(self.mod, node.func.id), self.depth + 1)
+            e = sub.body()
+            self.consts.update(sub.consts)
+            return e
         raise GenError("unsupported condition in %s: %s" % (self.func.name, ast.dump(node)[:80]))
 
+    def value(self, node):
+        need(node is not None, "bare return in %s" % self.func.name)
+        return self.cond(node)
+
+    def block(self, stmts):
+        """a statement list that returns on every path -> expression"""
+        need(stmts, "a path of %s does not return" % self.func.name)
+        st, rest = stmts[0], stmts[1:]
+        if isinstance(st, ast.Expr) and isinstance(st.value, ast.Constant) and isinstance(st.value.value, str):
+            return self.block(rest)        # docstring / stray string
+        if isinstance(st, ast.Expr) and isinstance(st.value, ast.Call) and isinstance(st.value.func, ast.Attribute) \
+                and isinstance(st.value.func.value, ast.Name) and st.value.func.value.id in ("log", "logger", "logging"):
+            return self.block(rest)        # logging is ignored
+        if isinstance(st, ast.Return):
+            return self.value(st.value)
+        if isinstance(st, ast.If):
+            c = self.cond(st.test)
+            then = self.block(list(st.body) + rest)        # a branch that does not return falls through to the rest
+            els = self.block(list(st.orelse) + rest)
+            return ("ite", c, then, els)
+        raise GenError("unsupported statement in %s: %s" % (self.func.name, type(st).__name__))
+
     def body(self):
-        stmts = list(self.func.body)
-        if stmts and isinstance(stmts[0], ast.Expr) and isinstance(stmts[0].value, ast.Constant) and isinstance(stmts[0].value.value, str):
-            stmts = stmts[1:]
-        need(stmts, "empty function body")
-        lines = []
-        for st in stmts[:-1]:
-            need(isinstance(st, ast.If) and not st.orelse and len(st.body) == 1 and isinstance(st.body[0], ast.Return)
-                 and isinstance(st.body[0].value, ast.Constant) and isinstance(st.body[0].value.value, bool),
-                 "statement is not `if <cond>: return True/False`")
-            lines.append("  if %s then %s else" % (self.cond(st.test), cbool(st.body[0].value.value)))
-        last = stmts[-1]
-        need(isinstance(last, ast.Return) and last.value is not None, "function does not end in `return <bool>`")
-        lines.append("  %s." % self.cond(last.value))
-        return "\n".join(lines)
+        return self.block(list(self.func.body))
+
+
+def atoms_of(e, acc=None):
+    acc = set() if acc is None else acc
+    if e[0] == "atom":
+        acc.add(e[1])
+    elif e[0] == "not":
+        atoms_of(e[1], acc)
+    elif e[0] in ("and", "or"):
+        for x in e[1]:
+            atoms_of(x, acc)
+    elif e[0] == "ite":
+        for x in e[1:]:
+            atoms_of(x, acc)
+    return acc
+
+
+def evaluate(e, env):
+    if e[0] == "const":
+        return e[1]
+    if e[0] == "atom":
+        return env[e[1]]
+    if e[0] == "not":
+        return not evaluate(e[1], env)
+    if e[0] == "and":
+        return all(evaluate(x, env) for x in e[1])
+    if e[0] == "or":
+        return any(evaluate(x, env) for x in e[1])
+    return evaluate(e[2], env) if evaluate(e[1], env) else evaluate(e[3], env)
 
 
 def coq_ident(name):
     return name.lstrip("_")
 
 
-@generator("GenServer", "Pyro5/server.py")
-def gen_server(tree):
-    mod, _ = parse(tree, "Pyro5/server.py")
-    f = find_func(mod, "is_private_attribute")
-    tr = Translator(mod, f)
-    body = tr.body()
-    need("_private_dunder_methods" in tr.consts, "is_private_attribute does not consult _private_dunder_methods")
-    # the reserved list must not be modified anywhere else at module level
-    for n in ast.walk(mod):
-        if isinstance(n, ast.Attribute) and isinstance(n.value, ast.Name) and n.value.id == "_private_dunder_methods":
-            raise GenError("_private_dunder_methods is used through an attribute (.%s): not understood" % n.attr)
-        if isinstance(n, (ast.Assign, ast.AugAssign, ast.AnnAssign)):
-            tg = n.targets if isinstance(n, ast.Assign) else [n.target]
-            if any(isinstance(t, ast.Name) and t.id == "_private_dunder_methods" for t in tg) and n not in mod.body:
-                raise GenError("_private_dunder_methods is assigned outside module level")
-        if isinstance(n, ast.Global) and "_private_dunder_methods" in n.names:
-            raise GenError("_private_dunder_methods is declared global in a function")
-    out = HEADER % "Pyro5/server.py"
-    out += "From V Require Import Model.StrFun.\n\n"
-    for name, vals in tr.consts.items():
-        out += "(* %s = %s *)\n" % (name, ", ".join(vals))
-        out += "Definition %s : list text := %s.\n\n" % (coq_ident(name), "[\n  " + ";\n  ".join(ctext(v) for v in vals) + "\n]")
-    out += "(* def is_private_attribute(%s): translated statement by statement *)\n" % tr.x
-    out += "Definition is_private_attribute (%s : text) : bool :=\n%s\n" % (tr.x, body)
-    # the per-class metadata cache of _get_exposed_members: what is it keyed on?
+def to_coq(e, x):
+    if e[0] == "const":
+        return cbool(e[1])
+    if e[0] == "atom":
+        k = e[1]
+        if k[0] == "mem":
+            return "(t_mem %s %s)" % (x, coq_ident(k[1]))
+        if k[0] == "sw":
+            return "(t_startswith %s %s)" % (x, ctext(k[1]))
+        if k[0] == "ew":
+            return "(t_endswith %s %s)" % (x, ctext(k[1]))
+        if k[0] == "lengt":
+            return "(N.ltb %s (t_len %s))" % (cN(k[1]), x)
+        return "(N.eqb (t_len %s) %s)" % (x, cN(k[1]))
+    if e[0] == "not":
+        return "(negb %s)" % to_coq(e[1], x)
+    if e[0] in ("and", "or"):
+        return "(" + (" && " if e[0] == "and" else " || ").join(to_coq(v, x) for v in e[1]) + ")"
+    return "(if %s then %s else %s)" % (to_coq(e[1], x), to_coq(e[2], x), to_coq(e[3], x))
+
+
+A_MEM, A_SW1, A_LEN, A_SW2, A_EW2 = ("mem", RESERVED), ("sw", "_"), ("lengt", 4), ("sw", "__"), ("ew", "__")
+CANON = ("or", [("atom", A_MEM), ("and", [("atom", A_SW1), ("not", ("and", [("atom", A_LEN), ("atom", A_SW2), ("atom", A_EW2)]))])])
+CANON_TEXT = """Definition is_private_attribute (attr_name : text) : bool :=
+  if (t_mem attr_name private_dunder_methods) then true else
+  if (negb (t_startswith attr_name [95%N])) then false else
+  if ((N.ltb 4%N (t_len attr_name)) && (t_startswith attr_name [95%N; 95%N]) && (t_endswith attr_name [95%N; 95%N])) then false else
+  true.
+"""
+
+
+def equivalent_to_canonical(e):
+    """truth-table comparison over the canonical atoms; assignments that no string can realise are skipped:
+    startswith('__') implies startswith('_'), and every reserved name starts with '_' (re-checked in Coq: reserved_underscore)"""
+    canon = [A_MEM, A_SW1, A_LEN, A_SW2, A_EW2]
+    if not atoms_of(e) <= set(canon):
+        return False
+    for vals in itertools.product([False, True], repeat=5):
+        env = dict(zip(canon, vals))
+        if (env[A_SW2] and not env[A_SW1]) or (env[A_MEM] and not env[A_SW1]):
+            continue
+        if evaluate(e, env) != evaluate(CANON, env):
+            return False
+    return True
+
+
+def canonical_private(name, reserved):
+    return name in reserved or (name.startswith("_") and not (len(name) > 4 and name.startswith("__") and name.endswith("__")))
+
+
+def probe_names(reserved):
+    names = set(reserved)
+    for alphabet, maxlen in (("_a", 7), ("_aéx", 5)):
+        for n in range(0, maxlen + 1):
+            for t in itertools.product(alphabet, repeat=n):
+                names.add("".join(t))
+    for r in reserved:
+        names.update([r[:-1], r[1:], r + "_", "_" + r, r.upper(), r[:-2], r.replace("_", "", 1)])
+    names.update(["__%s__" % w for w in ("len", "iter", "dunder", "x", "ab", "a" * 40)] + ["_" * k for k in range(0, 12)])
+    return sorted(names)
+
+
+# ---------------------------------------------------------------- the metadata cache
+def cache_facts_ast(mod):
     gm = find_func(mod, "_get_exposed_members")
     need(len(gm.args.args) >= 1, "_get_exposed_members takes no parameter")
     objname = gm.args.args[0].arg
     uses_cache = any(isinstance(n, ast.Name) and n.id.endswith("exposed_member_cache") for n in ast.walk(gm))
-    keyed_by_class = True
-    if uses_cache:
-        keys = [n for n in ast.walk(gm) if isinstance(n, ast.Assign) and len(n.targets) == 1
-                and isinstance(n.targets[0], ast.Name) and n.targets[0].id == "cache_key"]
-        need(len(keys) == 1, "_get_exposed_members: expected exactly one assignment to cache_key, found %d" % len(keys))
-        kv = keys[0].value
-        need(isinstance(kv, ast.Tuple) and len(kv.elts) >= 1, "_get_exposed_members: cache_key is not a tuple")
-        # keyed by the class object itself iff the class (after `obj = obj.__class__` normalisation) is an element of the key
-        keyed_by_class = any(isinstance(e, ast.Name) and e.id == objname for e in kv.elts)
-        subs = [n for n in ast.walk(gm) if isinstance(n, ast.Subscript) and isinstance(n.value, ast.Name)
-                and n.value.id.endswith("exposed_member_cache")]
-        need(all(isinstance(x.slice, ast.Name) and x.slice.id == "cache_key" for x in subs),
-             "_get_exposed_members: the cache is indexed by something other than cache_key")
-    # the result is put into the cache only after the dir()/getattr scan: no partially filled entry is ever visible
-    stored_after_scan = True
-    if uses_cache:
-        top = list(gm.body)
-        loops = [i for i, st in enumerate(top) if isinstance(st, ast.For)]
-        need(len(loops) == 1, "_get_exposed_members: expected exactly one top-level scan loop, found %d" % len(loops))
-        def stores(node):
-            return [n for n in ast.walk(node) if isinstance(n, (ast.Assign, ast.AugAssign, ast.AnnAssign))
-                    and any(isinstance(t, ast.Subscript) and isinstance(t.value, ast.Name) and t.value.id.endswith("exposed_member_cache")
-                            for t in (n.targets if isinstance(n, ast.Assign) else [n.target]))] + \
-                   [n for n in ast.walk(node) if isinstance(n, ast.Call) and isinstance(n.func, ast.Attribute)
-                    and isinstance(n.func.value, ast.Name) and n.func.value.id.endswith("exposed_member_cache")
-                    and n.func.attr in ("setdefault", "update", "__setitem__")]
-        where = [i for i, st in enumerate(top) if stores(st)]
-        need(where, "_get_exposed_members: no store into the member cache found")
-        stored_after_scan = all(i > loops[0] for i in where)
-    out += "\n(* _get_exposed_members stores its result in the cache only after the scan loop has completed *)\n"
+    if not uses_cache:
+        return True, True
+    keys = [n for n in ast.walk(gm) if isinstance(n, ast.Assign) and len(n.targets) == 1
+            and isinstance(n.targets[0], ast.Name) and n.targets[0].id == "cache_key"]
+    need(len(keys) == 1, "_get_exposed_members: expected exactly one assignment to cache_key, found %d" % len(keys))
+    kv = keys[0].value
+    need(isinstance(kv, ast.Tuple) and len(kv.elts) >= 1, "_get_exposed_members: cache_key is not a tuple")
+    keyed_by_class = any(isinstance(e, ast.Name) and e.id == objname for e in kv.elts)
+    subs = [n for n in ast.walk(gm) if isinstance(n, ast.Subscript) and isinstance(n.value, ast.Name)
+            and n.value.id.endswith("exposed_member_cache")]
+    need(all(isinstance(x.slice, ast.Name) and x.slice.id == "cache_key" for x in subs),
+         "_get_exposed_members: the cache is indexed by something other than cache_key")
+    top = list(gm.body)
+    loops = [i for i, st in enumerate(top) if isinstance(st, ast.For)]
+    need(len(loops) == 1, "_get_exposed_members: expected exactly one top-level scan loop, found %d" % len(loops))
+
+    def stores(node):
+        return [n for n in ast.walk(node) if isinstance(n, (ast.Assign, ast.AugAssign, ast.AnnAssign))
+                and any(isinstance(t, ast.Subscript) and isinstance(t.value, ast.Name) and t.value.id.endswith("exposed_member_cache")
+                        for t in (n.targets if isinstance(n, ast.Assign) else [n.target]))] + \
+               [n for n in ast.walk(node) if isinstance(n, ast.Call) and isinstance(n.func, ast.Attribute)
+                and isinstance(n.func.value, ast.Name) and n.func.value.id.endswith("exposed_member_cache")
+                and n.func.attr in ("setdefault", "update", "__setitem__")]
+    where = [i for i, st in enumerate(top) if stores(st)]
+    need(where, "_get_exposed_members: no store into the member cache found")
+    return keyed_by_class, all(i > loops[0] for i in where)
+
+
+def cache_facts_probed(tree):
+    """observe _get_exposed_members of the tree under test: (answers are per class object, no partially filled answer is
+    ever handed out after an aborted scan)"""
+    sm = tree_module(tree, "Pyro5.server")
+    gem, expose = sm._get_exposed_members, sm.expose
+
+    def mk(names):
+        ns = {}
+        for n in names:
+            def f(self):
+                return None
+            f.__name__ = n
+            ns[n] = expose(f)
+        return ns
+    # two classes with the same name / qualname / module, different members, asked alternately
+    A = type("GenProbe", (object,), mk(["alpha", "common"]))
+    B = type("GenProbe", (object,), mk(["beta", "common"]))
+    answers = [set(gem(A)["methods"]), set(gem(B)["methods"]), set(gem(A())["methods"]), set(gem(B)["methods"])]
+    keyed = answers == [{"alpha", "common"}, {"beta", "common"}, {"alpha", "common"}, {"beta", "common"}]
+
+    class Boom(object):
+        armed = True
+
+        def __get__(self, inst, owner):
+            if inst is None and Boom.armed:
+                Boom.armed = False
+                raise RuntimeError("not now")
+            return 7
+    ns = mk(["alpha", "omega"])
+    ns["kaboom"] = Boom()
+    C = type("GenProbe", (object,), ns)
+    try:
+        first = set(gem(C)["methods"])
+    except RuntimeError:
+        first = None
+    second = set(gem(C)["methods"])
+    stored_after = second == {"alpha", "omega"} and first in (None, {"alpha", "omega"})
+    return keyed, stored_after
+
+
+# ---------------------------------------------------------------- the handler's call form
+def attr_call_form(mod):
+    """every call of the two property helpers anywhere in the module passes obj plus exactly one resp. two positional arguments
+    and nothing else; then no part of a request can reach a trailing parameter of the helpers, whatever they are called"""
+    want = {"_get_exposed_property_value": 1, "_set_exposed_property_value": 2}
+    seen = {k: 0 for k in want}
+    fixed = True
+    for call in ast.walk(mod):
+        if isinstance(call, ast.Call) and isinstance(call.func, ast.Name) and call.func.id in want:
+            seen[call.func.id] += 1
+            if any(isinstance(a, ast.Starred) for a in call.args) or call.keywords or len(call.args) != want[call.func.id] + 1:
+                fixed = False
+    need(all(seen.values()), "no call of the property helpers found in Pyro5/server.py (%s)" % seen)
+    return fixed
+
+
+@generator("GenServer", "Pyro5/server.py")
+def gen_server(tree):
+    mod, _ = parse(tree, "Pyro5/server.py")
+    mode = {}
+    # ---- the reserved list and is_private_attribute
+    f = None
+    try:
+        f = find_func(mod, "is_private_attribute")
+        tr = Translator(mod, f)
+        expr = tr.body()
+        need(RESERVED in tr.consts, "is_private_attribute does not consult %s" % RESERVED)
+        need(set(tr.consts) == {RESERVED}, "is_private_attribute consults other name collections: %s" % sorted(tr.consts))
+        reserved = tr.consts[RESERVED]
+        if equivalent_to_canonical(expr):
+            ptext, mode["is_private_attribute"] = CANON_TEXT, "ast (equivalent to the canonical formula by truth table)"
+        else:
+            ptext = "Definition is_private_attribute (attr_name : text) : bool :=\n  %s.\n" % to_coq(expr, "attr_name")
+            mode["is_private_attribute"] = "ast (NOT equivalent to the canonical formula: emitted verbatim)"
+        mode["reserved"] = "ast"
+    except GenError as x:
+        sm = tree_module(tree, "Pyro5.server")
+        val = getattr(sm, RESERVED, None)
+        need(isinstance(val, (set, frozenset, list, tuple)) and all(isinstance(v, str) for v in val),
+             "%s is not a collection of strings (ast reader: %s)" % (RESERVED, x))
+        reserved = sorted(val)
+        bad = [n for n in probe_names(reserved) if bool(sm.is_private_attribute(n)) != canonical_private(n, set(reserved))]
+        need(not bad, "is_private_attribute differs from 'reserved, or leading underscore and not __x__' on e.g. %r "
+                      "(ast reader: %s)" % (bad[:5], x))
+        ptext = CANON_TEXT
+        mode["reserved"] = "evaluated"
+        mode["is_private_attribute"] = "probed on %d names against the canonical formula (ast reader: %s)" % (len(probe_names(reserved)), x)
+    need(all(isinstance(v, str) for v in reserved) and len(set(reserved)) == len(reserved), "duplicate reserved names")
+    # the reserved list must not be modified anywhere else
+    for n in ast.walk(mod):
+        if isinstance(n, ast.Attribute) and isinstance(n.value, ast.Name) and n.value.id == RESERVED:
+            raise GenError("%s is used through an attribute (.%s): not understood" % (RESERVED, n.attr))
+        if isinstance(n, (ast.Assign, ast.AugAssign, ast.AnnAssign)):
+            tg = n.targets if isinstance(n, ast.Assign) else [n.target]
+            if any(isinstance(t, ast.Name) and t.id == RESERVED for t in tg) and n not in mod.body:
+                raise GenError("%s is assigned outside module level" % RESERVED)
+        if isinstance(n, ast.Global) and RESERVED in n.names:
+            raise GenError("%s is declared global in a function" % RESERVED)
+    # ---- the metadata cache
+    try:
+        keyed_by_class, stored_after_scan = cache_facts_ast(mod)
+        mode["metadata_cache"] = "ast"
+    except GenError as x:
+        keyed_by_class, stored_after_scan = cache_facts_probed(tree)
+        mode["metadata_cache"] = "probed (ast reader: %s)" % x
+    # ---- the handler's call form
+    fixed_arity = attr_call_form(mod)
+    mode["attr_call_form"] = "ast (fixed positional arity at every call site)"
+
+    out = HEADER % "Pyro5/server.py"
+    out += "From V Require Import Model.StrFun.\n\n"
+    out += "(* %s = %s *)\n" % (RESERVED, ", ".join(reserved))
+    out += "Definition %s : list text := %s.\n\n" % (coq_ident(RESERVED), "[\n  " + ";\n  ".join(ctext(v) for v in reserved) + "\n]")
+    out += "(* def is_private_attribute(name) — reader: %s *)\n" % mode["is_private_attribute"].split(" (ast reader")[0]
+    out += ptext
+    out += "\n(* _get_exposed_members stores its result in the cache only after the scan has completed *)\n"
     out += "Definition metadata_cache_stored_after_scan : bool := %s.\n" % cbool(stored_after_scan)
     out += "\n(* _get_exposed_members: the metadata cache is keyed by the class object itself (not by a name) *)\n"
     out += "Definition metadata_cache_keyed_by_class : bool := %s.\n" % cbool(keyed_by_class)
-    # how Daemon.handleRequest hands the arguments of __getattr__/__setattr__ requests to the property helpers
-    from tools.gen.gen import find_class
-    hr = find_func(mod, "handleRequest", "Daemon")
-    forms = {}
-    for call in ast.walk(hr):
-        if isinstance(call, ast.Call) and isinstance(call.func, ast.Name) and call.func.id in ("_get_exposed_property_value", "_set_exposed_property_value"):
-            need(call.func.id not in forms, "handleRequest calls %s more than once" % call.func.id)
-            want = 1 if call.func.id.startswith("_get") else 2
-            if any(isinstance(a, ast.Starred) for a in call.args) or any(k.arg is None for k in call.keywords):
-                forms[call.func.id] = "star"       # *vargs / **kwargs: request arguments can reach trailing parameters
-                continue
-            need(not call.keywords, "%s is called with keyword arguments" % call.func.id)
-            need(len(call.args) == want + 1 and isinstance(call.args[0], ast.Name), "%s: unrecognised argument list" % call.func.id)
-            for i, a in enumerate(call.args[1:]):
-                need(isinstance(a, ast.Subscript) and isinstance(a.value, ast.Name) and a.value.id == "vargs"
-                     and isinstance(a.slice, ast.Constant) and a.slice.value == i, "%s: argument %d is not vargs[%d]" % (call.func.id, i + 1, i))
-            forms[call.func.id] = "indexed"
-    need(set(forms) == {"_get_exposed_property_value", "_set_exposed_property_value"}, "handleRequest does not call both property helpers")
-    # the helpers' own signature: (obj, propname[, value], only_exposed=True) — nothing else a request could bind
-    for fn, npos in (("_get_exposed_property_value", 2), ("_set_exposed_property_value", 3)):
-        a = find_func(mod, fn).args
-        need(not a.vararg and not a.kwarg and not a.kwonlyargs and len(a.args) == npos + 1 and a.args[-1].arg == "only_exposed"
-             and len(a.defaults) == 1 and isinstance(a.defaults[0], ast.Constant) and a.defaults[0].value is True,
-             "%s: unexpected signature" % fn)
-    out += "\n(* Daemon.handleRequest passes vargs[0] (, vargs[1]) to the property helpers — no *vargs / **kwargs *)\n"
-    out += "Definition attr_requests_index_arguments : bool := %s.\n" % cbool(all(v == "indexed" for v in forms.values()))
-    shas = {"is_private_attribute": ast_sha(f)}
-    for fn in ("expose", "_get_attribute", "_get_exposed_members", "_get_exposed_property_value", "_set_exposed_property_value"):
-        shas[fn] = ast_sha(find_func(mod, fn))
-    return out, {"reserved": tr.consts["_private_dunder_methods"], "ast_sha": shas}
+    out += "\n(* the property helpers are always called with a fixed number of positional arguments — no *vargs / **kwargs / keywords *)\n"
+    out += "Definition attr_requests_index_arguments : bool := %s.\n" % cbool(fixed_arity)
+    shas = {}
+    for fn in ("is_private_attribute", "expose", "_get_attribute", "_get_exposed_members", "_get_exposed_property_value",
+               "_set_exposed_property_value"):
+        try:
+            shas[fn] = ast_sha(find_func(mod, fn))
+        except GenError:
+            shas[fn] = None
+    return out, {"reserved": reserved, "mode": mode, "ast_sha": shas}
